@@ -438,3 +438,86 @@ func c12ReplaceAll(s, old, new string, n int) string {
 	}
 	return out
 }
+
+// C02 at the verb level — the flatten and unflatten verbs (built from their real command lines) are
+// inverse on records holding nested maps, arrays and EMPTY maps/arrays (the "{}" / "[]" markers),
+// with the default and a non-default separator, with and without -f.
+func VerifC02_flatten_unflatten_verbs() {
+	sep := []string{".", ":"}[verifChoice("sep", 2)]
+	rec := mlrval.NewMlrmapAsRecord()
+	rec.PutReference("p", mlrval.FromInt(1))
+	shape := verifChoice("x_shape", 5)
+	switch shape {
+	case 0:
+		rec.PutReference("x", mlrval.FromMap(mlrval.NewMlrmap()))
+	case 1:
+		rec.PutReference("x", mlrval.FromArray([]*mlrval.Mlrval{}))
+	case 2:
+		m := mlrval.NewMlrmap()
+		m.PutReference("k", mlrval.FromInt(5))
+		rec.PutReference("x", mlrval.FromMap(m))
+	case 3:
+		rec.PutReference("x", mlrval.FromArray([]*mlrval.Mlrval{mlrval.FromInt(5), mlrval.FromMap(mlrval.NewMlrmap())}))
+	case 4:
+		m := mlrval.NewMlrmap()
+		m.PutReference("e", mlrval.FromArray([]*mlrval.Mlrval{}))
+		m.PutReference("k", mlrval.FromString("v"))
+		rec.PutReference("x", mlrval.FromMap(m))
+	}
+	if verifBool("second_nested_field") {
+		m := mlrval.NewMlrmap()
+		m.PutReference("z", mlrval.FromInt(7))
+		rec.PutReference("y", mlrval.FromMap(m))
+	}
+	orig := rec.Copy()
+	fargs, uargs := []string{"flatten", "-s", sep}, []string{"unflatten", "-s", sep}
+	if verifChoice("with_f", 2) == 1 {
+		fargs, uargs = append(fargs, "-f", "x,y"), append(uargs, "-f", "x,y")
+	}
+	flat := verifPutRunAny(verifVerb(fargs...), rec)
+	verifAssert(len(flat) == 1, "C02/verbs/flatten-one-record")
+	if len(flat) != 1 {
+		return
+	}
+	for pe := flat[0].Head; pe != nil; pe = pe.Next {
+		verifAssert(!pe.Value.IsArrayOrMap(), "C02/verbs/flatten-output-is-flat")
+	}
+	back := verifPutRunAny(verifVerb(uargs...), flat[0])
+	verifAssert(len(back) == 1, "C02/verbs/unflatten-one-record")
+	if len(back) == 1 {
+		verifAssert(c02SameValue(mlrval.FromMap(orig), mlrval.FromMap(back[0])), "C02/verbs/unflatten-inverts-flatten")
+	}
+	verifReach("C02/verbs/end")
+}
+
+func c02SameValue(a, b *mlrval.Mlrval) bool {
+	if a.IsMap() != b.IsMap() || a.IsArray() != b.IsArray() {
+		return false
+	}
+	if a.IsMap() {
+		ma, mb := a.AcquireMapValue(), b.AcquireMapValue()
+		if ma.FieldCount != mb.FieldCount {
+			return false
+		}
+		pb := mb.Head
+		for pa := ma.Head; pa != nil; pa, pb = pa.Next, pb.Next {
+			if pb == nil || pa.Key != pb.Key || !c02SameValue(pa.Value, pb.Value) {
+				return false
+			}
+		}
+		return true
+	}
+	if a.IsArray() {
+		aa, ab := a.AcquireArrayValue(), b.AcquireArrayValue()
+		if len(aa) != len(ab) {
+			return false
+		}
+		for i := range aa {
+			if !c02SameValue(aa[i], ab[i]) {
+				return false
+			}
+		}
+		return true
+	}
+	return a.String() == b.String()
+}
